@@ -525,6 +525,9 @@ def rules(ctx):
     r8_conditioning(ctx)
     r12_space_shift_enters_the_trajectory(ctx)
     r13_metric_of_the_feature_positions(ctx)
+    # the closed form at the *loaded* parameters: loading re-shapes a value, it never re-arranges its entries (same rule as C12.R4b)
+    from .c12 import r4b_val_to_tensor
+    r4b_val_to_tensor(ctx, rid="C09.R14")
     ctx.trust("sigmoid is increasing with range (0,1) and sigmoid(-log g) = 1/(1+g); sympy sign assumptions; pandas join keeps the left index order")
     ctx.assume("weights of data variables are 0/1 masks")
 
